@@ -232,6 +232,7 @@ def stub_acl(rng, formula, renames):
               aclRules=types.SimpleNamespace(all=rules))
   term = '(RAcl %s (Some %s) %s)' % (coq_renames(renames), S(rule_table), core.coq_list(
     ['(%s, %s)' % (S(k), S(v['tableId'])) for k, v in attrs.items()]))
+  stub_acl.item = ({'kind': 'ACL', 'rule_table': rule_table}, {k: v['tableId'] for k, v in attrs.items()})
   try:
     acl.perform_acl_rule_renames(ua, renames)
   except SyntaxError:
@@ -268,6 +269,7 @@ def stub_dc(rng, formula, renames):
   ua = StubUA(columns=types.SimpleNamespace(all=others[:1] + [col] + others[1:]))
   ref = ctype.split(':')[1] if ':' in ctype else None
   term = '(RDc %s %s %s)' % (coq_renames(renames), core.optlit(ref, S), S(self_table))
+  stub_dc.item = ({'kind': 'DC', 'ref_table': ref, 'self_table': self_table}, {})
   try:
     dropdown_condition.perform_dropdown_condition_renames(ua, renames)
   except SyntaxError:
@@ -294,6 +296,7 @@ def stub_trigger(rng, formula, renames):
             types.SimpleNamespace(id=6, condition='rec.A', tableRef=trig.tableRef)]
   ua = StubUA(triggers=types.SimpleNamespace(all=others[:2] + [trig] + others[2:]))
   term = '(RTrigger %s %s)' % (coq_renames(renames), S(table))
+  stub_trigger.item = ({'kind': 'Trigger', 'table': table}, {})
   try:
     trigger_expression.perform_trigger_condition_renames(ua, renames)
   except SyntaxError:
@@ -318,6 +321,7 @@ def correspond(ctx):
   rng = ctx.rng
   coq, meta, colcases, lookcases = [], [], [], []
   ctx._c17_parsed_checks = []
+  ctx._c17_stub_results = []
   for formula, stream in gen_formulas(ctx):
     try:
       o = Oracles(formula)
@@ -348,12 +352,16 @@ def correspond(ctx):
         term, result, cc, lc, parsed = stub_acl(rng, formula, renames)
         colcases.extend(cc)
         lookcases.extend(lc)
+        item = stub_acl.item
       elif mode == 'dc':
         term, result, parsed = stub_dc(rng, formula, renames)
+        item = stub_dc.item
       else:
         if not formula:
           continue
         term, result, parsed = stub_trigger(rng, formula, renames)
+        item = stub_trigger.item
+      ctx._c17_stub_results.append((mode, formula, dict(renames), item, result))
     coq.append(coq_case(kind, term, o, ents, result))
     meta.append((formula, mode, kind, term, result))
     if parsed is not None and result[0] == 'text':
@@ -373,6 +381,7 @@ def correspond(ctx):
     ctx.broken('correspondence:Model.PredicateRename.rename_colids differs from perform_acl_rule_renames', colcases[k][-400:])
   for k in ctx.run_cases('lookup', IMPORTS, 'c17_lookup_ok', lookcases, shard=600)[:4]:
     ctx.broken('correspondence:Model.PredicateRename.rename_lookup differs from perform_acl_rule_renames', lookcases[k][-400:])
+  ctx.log('model evaluated on all cases')
   ctx.bump('colids-cases', len(colcases))
   ctx.bump('lookup-cases', len(lookcases))
 
@@ -395,7 +404,7 @@ E2E_NEW = ['Z', 'A2', 'name', 'Family Name', 'B', 'x y', 'AA', 'rec', 'Ünï']
 def gen_spec(rng, g):
   def formula(allow_bad):
     k = rng.random()
-    if allow_bad and k < 0.12:
+    if allow_bad and k < 0.05:
       return rng.choice(E2E_UNPARSABLE)
     if k < 0.5:
       return rng.choice(E2E_FORMULAS)
@@ -440,7 +449,7 @@ def gen_spec(rng, g):
 def search(ctx):
   from harness import pred_e2e
   g = predgen.Gen(ctx.rng, cols=['A', 'AA', 'B', 'Name', 'N', 'R', 'Cust'], unicode_ok=True)
-  for _ in range(ctx.n(40, 500)):
+  for _ in range(ctx.n(120, 600)):
     spec = gen_spec(ctx.rng, g)
     if not spec['actions']:
       continue
@@ -454,6 +463,18 @@ def search(ctx):
               kind='e2e:' + '+'.join(sorted(set(outcomes))))
     for kind, what in bad[:3]:
       ctx.violation(kind, what, {'spec': spec})
+  ctx.log('end-to-end documents done')
+  # the perform_* functions driven with the stub document model: the same independent text specification
+  for mode, formula, renames, (item, attr_tables), result in getattr(ctx, '_c17_stub_results', []):
+    if result[0] != 'text':
+      continue          # SyntaxError escaping: reported end to end (known finding)
+    want, n = pred_e2e.spec_rename_text(formula, item['kind'], pred_e2e.expected_renamer(item, renames, attr_tables))
+    ctx.bump('stub-oracle:' + ('renamed' if n else 'nothing-to-rename'))
+    if result[1] != want:
+      ctx.violation('text-not-exact', 'perform_%s renames %r with %r (%r): got %r, expected %r' % (
+        mode, formula, sorted(renames.items()), item, result[1], want),
+        {'stub': mode, 'formula': formula, 'renames': [[list(k), v] for k, v in renames.items()], 'item': item,
+         'attr_tables': attr_tables})
   # the perform_* stubs also gave (new text, stored parsed form): the parsed form must be the parse of the text
   for mode, text, parsed in getattr(ctx, '_c17_parsed_checks', []):
     want = pred_e2e.impl_parse(text)
@@ -464,6 +485,17 @@ def search(ctx):
 
 def replay(ctx, w):
   from harness import pred_e2e
+  if 'stub' in w:
+    import predicate_formula
+    renames = {tuple(k): v for k, v in w['renames']}
+    renamer = pred_e2e.expected_renamer(w['item'], renames, w['attr_tables'])
+    want, _ = pred_e2e.spec_rename_text(w['formula'], w['item']['kind'], renamer)
+    try:
+      got = predicate_formula.process_renames(w['formula'], collector_class(w['item']['kind'])(),
+                                              lambda s: renamer(s.type, s.name, s.extra))
+    except SyntaxError as e:
+      return 'process_renames raises SyntaxError: %s' % e
+    return None if got == want else 'renaming %r gives %r, expected %r' % (w['formula'], got, want)
   if 'spec' not in w:
     return None
   bad, _, _ = pred_e2e.run_spec(w['spec'])
